@@ -677,6 +677,18 @@ def cqm_case(ctx, r, lines, checks):
         else:
             lbv = 0 if r.random() < .93 else r.choice([1, -1])
             kinds.append(('I', lbv, r.choice([2, 3, 3, 4, 5, 6, 7, 1] if r.random() < .9 else [1])))
+    # a binary/spin variable labelled like a `binary_encoding` bit of one of the integers: must be refused (D64)
+    conflict = False
+    ints = [(v, k) for v, k in zip(names, kinds) if k[0] == 'I' and k[1] == 0 and k[2] >= 2]
+    if ints and r.random() < .1:
+        v, k = r.choice(ints)
+        kk = k[2].bit_length() - 1
+        bits = [(v, 2 ** e) for e in range(kk)] + [(v, k[2] - (2 ** kk - 1), 'msb')]
+        names = names + [r.choice(bits)]; kinds = kinds + [r.choice([('B',), ('S',)])]
+        if r.random() < .5:
+            names = names[-1:] + names[:-1]; kinds = kinds[-1:] + kinds[:-1]
+        nv += 1
+        conflict = True
     intcoef = lambda: r.choice([-4, -3, -2, -1, 1, 1, 2, 3, 4, 5])  # noqa: E731
     # objective
     olin = [(v, dy(r, 12, 2)) for v in names if r.random() < .8]
@@ -754,7 +766,7 @@ def cqm_case(ctx, r, lines, checks):
            '    bqm, inv = dimod.cqm_to_bqm(cqm, lam)\n'
            'except ValueError:\n'
            '    ally = [dict(zip(names, t)) for t in itertools.product(*[dom(k) for k in kinds])]\n'
-           '    assert (any(k[0] == "I" and (k[1] != 0 or k[2] < 2) for k in kinds) or any(cq for _, cq, _, _, _ in cons)\n'
+           f'    assert ({conflict} or any(k[0] == "I" and (k[1] != 0 or k[2] < 2) for k in kinds) or any(cq for _, cq, _, _, _ in cons)\n'
            '            or any(not any(one(y, c) for y in ally) for c in cons)), "refused a CQM it should convert"\n'
            '    raise SystemExit(0)\n'
            'if lam is None: lam = 0\n'
@@ -802,23 +814,28 @@ def cqm_case(ctx, r, lines, checks):
         err = None
     except Exception as e:  # noqa
         err = e
-    ctx.tick('cqm' + (':spin' if has_spin else '') + (f':{type(err).__name__}' if err is not None else ''))
+    ctx.tick('cqm' + (':spin' if has_spin else '') + (':bit-label-conflict' if conflict else '') + (f':{type(err).__name__}' if err is not None else ''))
     ctx.case(('cqm', line), nontrivial=err is None, sample=dict(vars=list(zip(map(repr, names), kinds)), ncons=len(cons), lam=str(lam)))
     site = 'cqm_to_bqm'
     if err is not None:
-        legit = isinstance(err, ValueError) and (bad_lb or small_ub or quad_cons or not each_feasible)
+        legit = isinstance(err, ValueError) and (bad_lb or small_ub or quad_cons or not each_feasible or conflict)
         if not legit:
             cls = 'SPIN variable' if has_spin else 'valid CQM'
             ctx.fail('property', site, cls, f'{type(err).__name__}: {err} on a CQM with linear integer-coefficient constraints over {kinds!r}', repro=src)
             return
         msg = str(err)
-        ecls = ('lowerBound' if 'lower bound' in msg else 'encoding' if 'upper_bound must be' in msg else
+        ecls = ('conflict' if 'conflicting variables' in msg else 'lowerBound' if 'lower bound' in msg else 'encoding' if 'upper_bound must be' in msg else
                 'quadraticConstraint' if 'quadratic constraints' in msg else 'infeasible' if 'infeasible' in msg else msg)
         lines.append(line)
         checks.append(('cqm_to_bqm vs Pen.cqmToBqm', 'refusal', 'err ' + ecls, src, False))
         return
     if bad_lb or quad_cons:
         ctx.fail('property', site, 'nonzero lower bound' if bad_lb else 'quadratic constraint', 'accepted', repro=src + 'assert False\n')
+        return
+    if conflict:
+        ctx.fail('property', site, 'variable labelled like an encoding bit',
+                 f'variables {list(zip(names, kinds))!r}: accepted although a binary/spin variable has the label of a binary_encoding bit of an integer variable; '
+                 f'the BQM has {bqm.num_variables} variables and the inverter cannot reach every CQM assignment', repro=src + 'assert False, "accepted"\n')
         return
     lam_used = lam
     enc = [u for u in bqm.variables if not (isinstance(u, str) and u.startswith('slack_'))]
